@@ -23,7 +23,25 @@ type DIO struct {
 func NewDIO() *DIO { return &DIO{Inner: fs.NewDirectIO()} }
 
 func (d *DIO) pt(op, file string, off int64) error {
+	return d.ptd(op, file, off, nil)
+}
+
+func (d *DIO) ptd(op, file string, off int64, data []byte) error {
 	vhook.Point("dio", fmt.Sprintf("%s %s@%d", op, filepath.Base(file), off))
+	switch op {
+	case "WriteAt":
+		if err := vhook.IOHook("pwrite", file, data, off); err != nil {
+			return err
+		}
+	case "ReadAt":
+		if err := vhook.IOHook("pread", file, nil, off); err != nil {
+			return err
+		}
+	case "Create":
+		if err := vhook.IOHook("create", file, nil, 0); err != nil {
+			return err
+		}
+	}
 	d.mu.Lock()
 	d.Calls++
 	f := d.Fault
@@ -41,10 +59,17 @@ func (d *DIO) Open(ctx context.Context, filename string, flag int, permission os
 	if err := d.pt("Open", filename, 0); err != nil {
 		return nil, err
 	}
+	if flag&os.O_CREATE != 0 {
+		if _, serr := os.Stat(filename); serr != nil {
+			if err := d.ptd("Create", filename, 0, nil); err != nil {
+				return nil, err
+			}
+		}
+	}
 	return d.Inner.Open(ctx, filename, flag, permission)
 }
 func (d *DIO) WriteAt(ctx context.Context, file *os.File, block []byte, offset int64) (int, error) {
-	if err := d.pt("WriteAt", file.Name(), offset); err != nil {
+	if err := d.ptd("WriteAt", file.Name(), offset, block); err != nil {
 		return 0, err
 	}
 	return d.Inner.WriteAt(ctx, file, block, offset)
